@@ -35,6 +35,14 @@ func parseError(err error) error {
 
 func (s *stream) Read(b []byte) (n int, err error) {
 	n, err = s.yamux().Read(b)
+	if n > 0 {
+		// yamux reports the end or the failure of a stream with n == 0. An
+		// error next to data stems from sending the window update (e.g. the
+		// session is gone: a bare io.EOF when the peer closed the connection)
+		// and says nothing about the bytes that are still buffered. Deliver
+		// the data; the next call reports the stream's actual state.
+		return n, nil
+	}
 	return n, parseError(err)
 }
 
